@@ -62,6 +62,18 @@ def mirrors_for(unit, qual, kind='body'):
             if not post and ('k_%s%s_nopanic' % (pre, view)) in PKT_NOPANIC_HARNESSES:
                 res.append('k_%s%s_nopanic' % (pre, view))
             return res
+    if unit == 'core_net_build':
+        fam = '6' if '::ipv6::' in qual else '4'
+        name = qual.split('::')[-1]
+        if name.startswith('extract_') or name == 'udp_payload_has_magic_prefix':
+            if post:
+                return ['k4_roundtrip_udp', 'k4_roundtrip_icmp'] if fam == '4' else []
+            proto = 'udp' if 'udp' in name else ('tcp' if 'tcp' in name else 'icmp')
+            return ['k%s_recv_nopanic_%s' % (fam, proto)]
+        if name in ('make_ipv4_packet', 'make_udp_packet', 'make_echo_request_icmp_packet', 'icmp_payload_size', 'udp_payload_size') and fam == '4':
+            return ['k4_dispatch_udp_33', 'k4_dispatch_icmp_33']
+        if name == 'calc_udp_checksum':
+            return ['k4_dispatch_udp_33']
     return []
 
 
